@@ -66,7 +66,7 @@ type c23Replay struct {
 
 func c23GenSnaps(rng *kit.RNG) []c23Snap {
 	n := rng.Range(5, 40)
-	hosts := []string{"alpha", "beta", "gamma"}
+	hosts := []string{"alpha", "Alpha", "beta", "gamma"} // "alpha"/"Alpha": host names are case-sensitive (seeded change C23-2)
 	pathSets := [][]string{{"/data"}, {"/etc"}, {"/data", "/etc"}}
 	tagSets := [][]string{nil, {"a"}, {"b"}, {"a", "b"}, {"a", "c"}, {"b", "c"}, {"a", "b", "c"}, {"keep"}, {"a", "keep"}}
 	nh, np, nt := rng.Range(1, 3), rng.Range(1, 3), rng.Range(1, len(tagSets))
